@@ -2,7 +2,7 @@
 from worldcheck import *
 
 PROP = "C02"
-THEOREMS = [tuple(x) for x in json.load(open(os.path.join(VERIF, "lib", "pins", PROP + ".json")))]
+THEOREMS = ["C02", "C02Hist", "C02HistG"]
 
 
 def gen(rng, **kw):
